@@ -1,9 +1,11 @@
 SPECIFICATION Spec
 CONSTANTS
-  MaxN = 8
+  MaxN = 20
+VIEW SymView
 INVARIANT Partition
 INVARIANT NoDupEver
 INVARIANT SplitsSound
 INVARIANT TestSizesSumToN
 INVARIANT EveryObjectOnce
 INVARIANT CounterBounded
+INVARIANT UnplacedUntouched
